@@ -450,4 +450,3 @@ func (m *Map) removeAt(i int) {
 		delete(m.idx, h)
 	}
 }
-
